@@ -1458,7 +1458,21 @@ pub fn fuzz_one(check: &dyn Check, data: &[u8])
 			.iter()
 			.any(|(p, s, _)| p == id && (s == sig || s.starts_with(&format!("{} in ", sig)) || s.starts_with(&format!("{} [", sig))))
 	};
-	let r = std::panic::catch_unwind(std::panic::AssertUnwindSafe(|| check.judge_bytes(data)));
+	// deep recursion in a parser is not these properties' subject: give the
+	// oracle a large stack of its own
+	let r = std::thread::scope(|sc| {
+		std::thread::Builder::new()
+			.stack_size(1 << 30)
+			.spawn_scoped(sc, || {
+				let r = std::panic::catch_unwind(std::panic::AssertUnwindSafe(|| check.judge_bytes(data)));
+				let sig = LAST_PANIC.with(|p| p.borrow_mut().take());
+				(r, sig)
+			})
+			.expect("spawn")
+			.join()
+			.expect("join")
+	});
+	let (r, panic_sig) = r;
 	match r
 	{
 		Ok(Some(out)) =>
@@ -1475,7 +1489,7 @@ pub fn fuzz_one(check: &dyn Check, data: &[u8])
 		Ok(None) => (),
 		Err(_) =>
 		{
-			let sig = LAST_PANIC.with(|p| p.borrow_mut().take()).unwrap_or_else(|| "panic ?".to_string());
+			let sig = panic_sig.unwrap_or_else(|| "panic ?".to_string());
 			if !tolerated(&sig)
 			{
 				eprintln!("ORACLE {}", sig);
@@ -2184,6 +2198,54 @@ pub fn run_check(check: &dyn Check, cfg: &RunConfig) -> i32
 	else
 	{
 		0
+	}
+}
+
+/// development aid: reduce the files of a replay (or a JSON list of
+/// {file, source}) while `check`'s source-level oracle keeps producing `sig`
+pub fn reduce_files(check: &dyn Check, path: &str, sig: &str, sname: &str) -> i32
+{
+	let text = std::fs::read_to_string(path).expect("read");
+	let v: Value = serde_json::from_str(&text).expect("json");
+	let files = if let Some(a) = v.as_array()
+	{
+		files_of_json(a)
+	}
+	else
+	{
+		match source_of_detail(&v["detail"])
+		{
+			Some(f) => f,
+			None =>
+			{
+				eprintln!("no files in {}", path);
+				return 2;
+			}
+		}
+	};
+	PER_STREAM_SIGS.store(check.crash_sig_per_stream() as u64, Ordering::SeqCst);
+	let cfg = RunConfig {
+		tier: Tier::Quick,
+		seed: 0,
+		threads: 1,
+	};
+	match reduce_source(check.id(), sname, files.clone(), sig, &cfg, Duration::from_secs(60))
+	{
+		Some((small, steps)) =>
+		{
+			eprintln!("reduced in {} steps", steps);
+			for (n, s) in small
+			{
+				println!("==== {}\n{}", n, s);
+			}
+			0
+		}
+		None =>
+		{
+			let got = run_source(check.id(), sname, &files, &cfg, Duration::from_secs(60));
+			eprintln!("signature not reproduced; got {:?}", got.iter().map(|(s, _)| s).collect::<Vec<_>>());
+			1
+		}
 	}
 }
 
